@@ -12,6 +12,8 @@
 From Coq Require Import ZArith List Bool.
 Import ListNotations.
 From Verif Require Import Base.StableSort Model.Summarize Proofs.SummarizeProofs.
+(* bld-compiler3: the tie of Compiler._compile_from (end of this file); required here, imported there *)
+From Verif Require Model.Compile Model.PrimsApi Model.PrimsCompiler Model.PrimsSelect Gen.SrcFrom Proofs.SrcFrom.
 Open Scope Z_scope.
 
 (* ---- beanquery: prepare, compile check, shell default ---- *)
@@ -239,3 +241,122 @@ Example C13_source_prepare_example :
           PTuple [PV (VStr (Dates.s2z "beancount.ops.summarize.close_opt")); PNone;
             PTuple [PV (VStr (Dates.s2z "beancount.ops.summarize.open_opt")); PV (VDate 10); PInt 7]]]).
 Proof. vm_compute. reflexivity. Qed.
+
+(* ---- bld-compiler3: the compile-time half of OPEN / CLOSE / CLEAR.  Compiler._compile_from, translated into PyMini on
+   every run (Gen/SrcFrom.v), with `x = self._compile(..)` read as `self.table, x = self._compile(self.table, ..)`
+   (translator rule K12, Model/PrimsSelect.v).  A table is any value; hasattr(table, 'update') = [updatable table] and
+   table.update(open=o, close=c, clear=x) = [upd table o c x] are uninterpreted. ---- *)
+Module SF := Verif.Proofs.SrcFrom.
+Import Verif.Model.PrimsApi Verif.Model.PrimsCompiler Verif.Model.PrimsSelect.
+
+(* FROM <expression> OPEN ON op CLOSE [ON cl] CLEAR.  After the expression is compiled (leaving table t1), IN THIS ORDER:
+   an aggregate is rejected; CLOSE before OPEN is rejected - only when both are dates (`CLOSE` alone is True and passes);
+   a table without .update is rejected; then self.table := t1.update(open, close, clear) with EXACTLY the three
+   qualifiers of the node, and the compiled expression is returned.  (Before the date check nothing was assigned but
+   what _compile left; a rejected statement never derives a table.) *)
+Theorem C13_source_compile_from_expr :
+  forall (call_ref : nat -> list pv -> pv) (tbl : nat -> Compile.cnode) (kids : nat -> list nat)
+         (mro : string -> list string) (msg : string -> list pv -> pv) (updatable : pv -> bool)
+         (upd : pv -> pv -> pv -> pv -> pv) (t0 t1 : pv) (kC : nat) (tabs : list (pv * pv)) (rest : env)
+         (ex clr : pv) (op : option Z) (cl : option (option Z)) (rexpr : Compile.result (option nat) Compile.cerr),
+  call_ref kC [t0; ex] = SF.enc_res (fun oe => PTuple [t1; popt nref oe]) rexpr ->
+  (forall i, call_ref SF.ka [nref i] = PBool (Compile.has_agg (tbl i))) ->
+  call_method call_ref (prim_select tbl kids mro msg updatable upd) Verif.Gen.SrcFrom.compile_from
+    (SF.flds kC tabs rest t0) [SF.FROMNODE ex clr op cl] =
+  match rexpr with
+  | Compile.Err e => Exc (CompErr e)
+  | Compile.Ok oe =>
+      if match oe with Some i => Compile.has_agg (tbl i) | None => false end then Exc (CompErr Compile.EAggInFrom)
+      else if match op, cl with Some o, Some (Some c) => c <? o | _, _ => false end
+           then Exc (CompErr Compile.EOpenAfterClose)
+      else if negb (updatable t1) then Exc (CompErr Compile.EFromNotSupported)
+      else PyMini.Ok (SF.flds kC tabs rest (upd t1 (SF.enc_open op) (SF.enc_close cl) clr), popt nref oe)
+  end.
+Proof.
+  intros. rewrite (SF.from_expr_src call_ref tbl kids mro msg updatable upd t0 t1 kC tabs rest ex clr op cl rexpr H H0).
+  unfold SF.p_from_expr, SF.close_before_open. destruct rexpr as [oe|e]; [|reflexivity]. cbn [Compile.bind].
+  destruct (match oe with Some i => Compile.has_agg (tbl i) | None => false end); [reflexivity|].
+  destruct (match op, cl with Some o, Some (Some c) => c <? o | _, _ => false end); [reflexivity|].
+  destruct (updatable t1); reflexivity.
+Qed.
+Print Assumptions C13_source_compile_from_expr.
+
+(* ... and that decision is the model's (Compile.compile_from on FKExpr), which C13_date_check and the statement-level
+   theorems of C05 are stated over *)
+Theorem C13_source_compile_from :
+  forall (call_ref : nat -> list pv -> pv) (tbl : nat -> Compile.cnode) (kids : nat -> list nat)
+         (mro : string -> list string) (msg : string -> list pv -> pv) (updatable : pv -> bool)
+         (upd : pv -> pv -> pv -> pv -> pv) (t0 t1 : pv) (kC : nat) (tabs : list (pv * pv)) (rest : env)
+         (ex clr : pv) (op : option Z) (cl : option (option Z)) (rexpr : Compile.result (option nat) Compile.cerr)
+         (sch : Compile.schema) (tb : Compile.table) (clrb : bool),
+  call_ref kC [t0; ex] = SF.enc_res (fun oe => PTuple [t1; popt nref oe]) rexpr ->
+  (forall i, call_ref SF.ka [nref i] = PBool (Compile.has_agg (tbl i))) ->
+  Compile.t_updatable tb = updatable t1 ->
+  match Compile.compile_from sch tb (Compile.FKExpr op cl clrb) (SF.fe_of tbl rexpr) with
+  | Compile.Ok (tb', c) =>
+      exists oe, call_method call_ref (prim_select tbl kids mro msg updatable upd) Verif.Gen.SrcFrom.compile_from
+                   (SF.flds kC tabs rest t0) [SF.FROMNODE ex clr op cl] =
+                 PyMini.Ok (SF.flds kC tabs rest (upd t1 (SF.enc_open op) (SF.enc_close cl) clr), popt nref oe)
+                 /\ tb' = tb /\ c = option_map tbl oe
+  | Compile.Err e =>
+      call_method call_ref (prim_select tbl kids mro msg updatable upd) Verif.Gen.SrcFrom.compile_from
+        (SF.flds kC tabs rest t0) [SF.FROMNODE ex clr op cl] = Exc (CompErr e)
+  end.
+Proof. exact SF.compile_from_source. Qed.
+Print Assumptions C13_source_compile_from.
+
+(* no FROM clause: nothing changes; FROM <name>: the table of that name in context.tables, or `table ".." does not exist` *)
+Theorem C13_source_compile_from_none :
+  forall (call_ref : nat -> list pv -> pv) (tbl : nat -> Compile.cnode) (kids : nat -> list nat)
+         (mro : string -> list string) (msg : string -> list pv -> pv) (updatable : pv -> bool)
+         (upd : pv -> pv -> pv -> pv -> pv) (t0 : pv) (kC : nat) (tabs : list (pv * pv)) (rest : env),
+  call_method call_ref (prim_select tbl kids mro msg updatable upd) Verif.Gen.SrcFrom.compile_from
+    (SF.flds kC tabs rest t0) [PNone] = PyMini.Ok (SF.flds kC tabs rest t0, PNone).
+Proof. exact SF.from_none_src. Qed.
+Print Assumptions C13_source_compile_from_none.
+
+Theorem C13_source_compile_from_table :
+  forall (call_ref : nat -> list pv -> pv) (tbl : nat -> Compile.cnode) (kids : nat -> list nat)
+         (mro : string -> list string) (msg : string -> list pv -> pv) (updatable : pv -> bool)
+         (upd : pv -> pv -> pv -> pv -> pv) (t0 : pv) (kC : nat) (tabs : list (pv * pv)) (rest : env) (name : string),
+  call_method call_ref (prim_select tbl kids mro msg updatable upd) Verif.Gen.SrcFrom.compile_from
+    (SF.flds kC tabs rest t0) [record (zs TABLE) [("name", PStr name)]] =
+  if pv_is_none (SF.table_named tabs (PStr name)) then Exc (CompErr Compile.ETableNotFound)
+  else PyMini.Ok (SF.flds kC tabs rest (SF.table_named tabs (PStr name)), PNone).
+Proof. exact SF.from_table_src. Qed.
+Print Assumptions C13_source_compile_from_table.
+
+(* FROM (SELECT ..): the subquery is compiled first; a PIVOT BY result is rejected; the table becomes SubqueryTable(q) *)
+Theorem C13_source_compile_from_select :
+  forall (call_ref : nat -> list pv -> pv) (tbl : nat -> Compile.cnode) (kids : nat -> list nat)
+         (mro : string -> list string) (msg : string -> list pv -> pv) (updatable : pv -> bool)
+         (upd : pv -> pv -> pv -> pv -> pv) (t0 t1 : pv) (kC : nat) (tabs : list (pv * pv)) (rest : env)
+         (sel_fields : list (string * pv)) (rsub : Compile.result pv Compile.cerr),
+  call_ref kC [t0; SF.SELNODE sel_fields] = SF.enc_res (fun q => PTuple [t1; q]) rsub ->
+  call_method call_ref (prim_select tbl kids mro msg updatable upd) Verif.Gen.SrcFrom.compile_from
+    (SF.flds kC tabs rest t0) [SF.SELNODE sel_fields] =
+  match rsub with
+  | Compile.Ok q =>
+      if SF.is_query q
+      then match call_ref SF.ksub [q] with PV (VErr k) => Exc k | t => PyMini.Ok (SF.flds kC tabs rest t, PNone) end
+      else Exc (CompErr Compile.ESubqueryPivot)
+  | Compile.Err e => Exc (CompErr e)
+  end.
+Proof. exact SF.from_select_src. Qed.
+Print Assumptions C13_source_compile_from_select.
+
+(* the hypotheses are satisfiable and the conclusion is not vacuous: OPEN ON day 20 CLOSE ON day 10 is rejected,
+   OPEN ON day 10 CLOSE (no date) CLEAR derives a table from exactly those qualifiers *)
+Definition ex_from_call (k : nat) (args : list pv) : pv :=
+  match k with 1%nat => PBool false | 5%nat => PTuple [PStr "t1"; PNone] | _ => PNone end.
+Definition ex_from_upd (t o c x : pv) : pv := PTuple [t; o; c; x].
+Example C13_source_compile_from_examples :
+  call_method ex_from_call (prim_select (fun _ => Compile.NSub1D) (fun _ => []) (fun _ => []) (fun _ _ => PNone)
+                                        (fun _ => true) ex_from_upd)
+    Verif.Gen.SrcFrom.compile_from (SF.flds 5 [] [] (PStr "t0")) [SF.FROMNODE PNone PNone (Some 20) (Some (Some 10))]
+  = Exc (CompErr Compile.EOpenAfterClose)
+  /\ call_method ex_from_call (prim_select (fun _ => Compile.NSub1D) (fun _ => []) (fun _ => []) (fun _ _ => PNone)
+                                           (fun _ => true) ex_from_upd)
+       Verif.Gen.SrcFrom.compile_from (SF.flds 5 [] [] (PStr "t0")) [SF.FROMNODE PNone (PBool true) (Some 10) (Some None)]
+     = PyMini.Ok (SF.flds 5 [] [] (PTuple [PStr "t1"; PV (VDate 10); PBool true; PBool true]), PNone).
+Proof. split; vm_compute; reflexivity. Qed.
